@@ -418,7 +418,7 @@ func (h *History) collect(e *Event) {
 		}
 		c.eofSeen = c.eofSeen || eof
 		c.doneSeen = c.doneSeen || done
-		e.Conns = append(e.Conns, ConnSt{K: n, C: c.id, V: c.version, EOF: eof, Dropped: c.dropped, Done: done})
+		e.Conns = append(e.Conns, ConnSt{K: n, C: c.id, V: c.version, EOF: eof, Dropped: c.dropped, Done: done, Stalled: c.stalled})
 	}
 	e.Hooks = h.rec.take()
 	h.mu.Lock()
